@@ -639,6 +639,7 @@ class StmtMixin:
                 if not run.truth(self.eval(st.test), st.test):  # type: ignore[attr-defined]
                     raise_infeasible()
 
+        rec.__dict__["active"] = True      # (the body runs at most once per record; the flag is read while it runs)
         if self.is_stop_loop(st):
             rec.__dict__["body_effect_start"] = len(run.effects)
             enter_body(all_assigned)
@@ -686,6 +687,7 @@ class StmtMixin:
                     e.__dict__["in_loop_rec"] = rec      # this execution of the loop statement (the same statement may run several times)
                 fr.env.clear()
                 fr.env.update(saved_env)
+            rec.__dict__["active"] = False
             for n in cont_assigned:
                 fr.env[n] = self.generalise(n, fr.env[n], lid, "after")
             if isinstance(st, ast.For):
